@@ -1,9 +1,9 @@
 package poolsim
 
 import (
-	"os"
 	"encoding/json"
 	"math/rand/v2"
+	"os"
 )
 
 type OpKind int
@@ -141,9 +141,12 @@ type Plan struct {
 	// OddKeys: affinity key strings are long / contain separators, spaces, NUL and
 	// non-ASCII characters instead of "k<i>"
 	OddKeys bool `json:"odd_keys,omitempty"`
+	// Second: at the end the application edits its configuration object in place
+	// and uses it for a second balancer
+	Second bool `json:"second,omitempty"`
 	// ScaleMix: the plan carries the "pool starts with 17-40 channels" fragment
 	ScaleMix bool `json:"scale_mix,omitempty"`
-	Ops     []Op `json:"ops"`
+	Ops      []Op `json:"ops"`
 	// Suffix: concurrent plans only - a short serial operation list executed with
 	// the full model after the burst has quiesced and healed (fresh keys only).
 	Suffix []Op `json:"suffix,omitempty"`
@@ -365,10 +368,11 @@ func Generate(r *rand.Rand, profile string, concurrent bool, av Avoid) *Plan {
 		p.CloseEnd = true
 	}
 	p.Verbose = r.IntN(8) == 0 || (profile == "chaos" && r.IntN(4) == 0)
+	p.Second = !concurrent && r.IntN(6) == 0
 	p.SharedAddrs = r.IntN(4) == 0
 	p.OddKeys = r.IntN(6) == 0
 	if concurrent {
-		p.Strategy = r.IntN(4)
+		p.Strategy = r.IntN(6) // 0 random walk, 1-3 PCT depth, 4-5 one long stall
 	}
 	nOps := 8 + r.IntN(50)
 	if r.IntN(4) == 0 {
@@ -457,6 +461,12 @@ func Generate(r *rand.Rand, profile string, concurrent bool, av Avoid) *Plan {
 				if profile == "chaos" || profile == "rr" {
 					o.D = 2
 				}
+			case 5:
+				// the application's request-scoped context: one context with a deadline
+				// shared by several calls, some of them started when it is about to
+				// end or has just ended (its cancellation lags the deadline a little)
+				o.D = 3
+				o.E = []int{1, 5, 10, 20, 50}[r.IntN(5)]
 			}
 			if (profile == "affinity" || profile == "fallback") && r.IntN(15) == 0 {
 				o.F |= FlagStream // C12: the first message of a stream is visible to the picker
@@ -600,6 +610,47 @@ func Generate(r *rand.Rand, profile string, concurrent bool, av Avoid) *Plan {
 			}
 		}
 		at := 3 + r.IntN(len(p.Ops)-3)
+		ops := append([]Op{}, p.Ops[:at]...)
+		ops = append(ops, frag...)
+		p.Ops = append(ops, p.Ops[at:]...)
+	}
+	// Directed fragment (double fault, serial plans that may shut live connections
+	// down): a refresh is pending, the connection it is meant to replace reports
+	// SHUTDOWN, the replacement never becomes READY; the pool is re-populated
+	// (resolver update on the emptied pool), the new channel comes up, turns
+	// unresponsive too and needs a refresh of its own. Progress and crash oracles.
+	if p.LiveShutdown && !concurrent && p.Cfg.UMs > 0 && p.Cfg.UCalls > 0 && p.Cfg.UMs <= 1000 && r.IntN(3) == 0 && len(p.Ops) > 4 {
+		n := int(p.Cfg.UCalls)
+		if r.IntN(2) == 0 {
+			p.Cfg.Min, p.Cfg.Max = 1, 1
+		}
+		p.Cfg.RR = false
+		round := func(frag []Op) []Op {
+			for c := 0; c < n; c++ {
+				frag = append(frag, Op{K: OpPick, B: MPlain, D: 1, E: 1})
+			}
+			frag = append(frag, Op{K: OpAdvance, E: int(p.Cfg.UMs) + 2})
+			for c := 0; c < n; c++ {
+				frag = append(frag, Op{K: OpDone, A: -1, B: OutClientDE})
+			}
+			return frag
+		}
+		frag := []Op{{K: OpConn, A: 0, B: ConnProgress}, {K: OpConn, A: 0, B: ConnProgress}}
+		for rep := 1 + r.IntN(2); rep > 0; rep-- {
+			frag = round(frag)                                         // refresh pending: replacement created
+			frag = append(frag, Op{K: OpConn, A: -2, B: ConnShutdown}) // the connection that served those calls
+			switch r.IntN(3) {
+			case 0: // the replacement stays idle
+			case 1:
+				frag = append(frag, Op{K: OpConn, A: -1, B: ConnProgress})
+			case 2:
+				frag = append(frag, Op{K: OpConn, A: -1, B: ConnProgress}, Op{K: OpConn, A: -1, B: ConnFail})
+			}
+			frag = append(frag, Op{K: OpResolver, A: r.IntN(3)}, Op{K: OpConn, A: -1, B: ConnProgress}, Op{K: OpConn, A: -1, B: ConnProgress})
+		}
+		frag = round(frag)
+		frag = append(frag, Op{K: OpPick, B: MPlain}, Op{K: OpConn, A: -1, B: ConnProgress}, Op{K: OpConn, A: -1, B: ConnProgress}, Op{K: OpPick, B: MPlain})
+		at := 1
 		ops := append([]Op{}, p.Ops[:at]...)
 		ops = append(ops, frag...)
 		p.Ops = append(ops, p.Ops[at:]...)
@@ -989,6 +1040,7 @@ func Simplify(p *Plan) []*Plan {
 	add(func(c *Plan) bool { ch := !c.Legal; c.Legal = true; return ch })
 	add(func(c *Plan) bool { ch := c.SharedAddrs; c.SharedAddrs = false; return ch })
 	add(func(c *Plan) bool { ch := c.OddKeys; c.OddKeys = false; return ch })
+	add(func(c *Plan) bool { ch := c.Second; c.Second = false; return ch })
 	for i := range p.Ops {
 		i := i
 		o := p.Ops[i]
